@@ -8,9 +8,9 @@ from harness import parse_common as PC
 from harness.driver import Driver, DriverError
 
 PID = 'C02'
-THEOREMS = ['PyDBML.C02.tables_roundtrip_partial', 'PyDBML.C02.enum_roundtrip_partial', 'PyDBML.C02.renderDb_tables', 'PyDBML.C02.table_roundtrip_partial', 'PyDBML.C02.sticky_roundtrip_partial', 'PyDBML.C02.renderDb_table', 'PyDBML.C02.renderDb_sticky',
+THEOREMS = ['PyDBML.C02.refs_roundtrip_partial', 'PyDBML.C02.renderDb_tables_refs', 'PyDBML.C02.tables_roundtrip_partial', 'PyDBML.C02.enum_roundtrip_partial', 'PyDBML.C02.renderDb_tables', 'PyDBML.C02.table_roundtrip_partial', 'PyDBML.C02.sticky_roundtrip_partial', 'PyDBML.C02.renderDb_table', 'PyDBML.C02.renderDb_sticky',
             'PyDBML.C02.tableRule_ok', 'PyDBML.C02.many_body', 'PyDBML.C02.stickyNoteRule_ok']
-MODULES = ['PyDBMLProofs.Props.C02Sticky', 'PyDBMLProofs.Props.C02Table', 'PyDBMLProofs.Props.C02Tables', 'PyDBMLProofs.Props.C02Enum']
+MODULES = ['PyDBMLProofs.Props.C02Sticky', 'PyDBMLProofs.Props.C02Table', 'PyDBMLProofs.Props.C02Tables', 'PyDBMLProofs.Props.C02Enum', 'PyDBMLProofs.Props.C02Refs']
 
 
 def canonical_ref_order(spec):
@@ -287,7 +287,11 @@ def main(tier, seed):
         rule='databases from three sources: parsed from spelled documents, built through the public classes from Expressible '
              'values, and wild API-built ones (named reasons outside Expressible), plus the corpus; each rendered, re-parsed, '
              're-rendered twice. Non-trivial: >=1 table and >=2 features; distinct by content hash',
-        explanation='Theorems tables_roundtrip_partial (a database holding ANY positive number of tables with pairwise different names, '
+        explanation='Theorem refs_roundtrip_partial (a database of any positive number of plain tables and any positive number of pairwise '
+                    'different standalone single-column references between their columns round-trips: every reference is resolved, by table and '
+                    'column NAME, back to the very positions it was written from; the hypotheses on names are exactly the recorded findings: no '
+                    'dot in a table name, no comma/framing parentheses or blanks in a column name, no two columns of one table with one name). '
+                    'Theorems tables_roundtrip_partial (a database holding ANY positive number of tables with pairwise different names, '
                     'each with ANY positive number of columns with a quoted name and a one-word type, is rendered by the renderer model and '
                     'read back by the character-level parser model + build model to exactly the same database - same tables, same columns, '
                     'same order: two nested inductions through the fuelled `many`, the end rule between elements, the uniqueness folds of '
